@@ -140,7 +140,10 @@ def decoder_ok_errors(fn, data: bytes):
         if h.parent is not None:
             errs.append(f"hit {h.type} has a parent")
         if not (0 <= h.start <= h.end <= len(data)):
-            errs.append(f"hit {h.type!r} span [{h.start},{h.end}) outside data of length {len(data)}")
+            how = ""
+            if fn.__name__ == "find_powershell_strings" and h.end == len(data) - h.start:
+                how = " {no-context branch: end = len(data) - start}"
+            errs.append(f"hit {h.type!r} span [{h.start},{h.end}) outside data of length {len(data)}{how}")
         stack = [h]
         while stack:
             p = stack.pop()
@@ -148,7 +151,10 @@ def decoder_ok_errors(fn, data: bytes):
                 if c.parent is not p:
                     errs.append(f"child {c.type!r} of {p.type!r} has a wrong parent link")
                 if not (0 <= c.start <= c.end <= len(p.value)):
-                    errs.append(f"child {c.type!r} span [{c.start},{c.end}) outside its parent {p.type!r} value of length {len(p.value)}")
+                    how = ""
+                    if fn.__name__ == "find_powershell_strings" and p.type == "shell.cmd" and c.type == "shell.powershell" and c.start == 0 and c.end == len(c.value):
+                        how = " {powershell child spans its OWN rewritten value, not the caret-unescaped parent}"
+                    errs.append(f"child {c.type!r} span [{c.start},{c.end}) outside its parent {p.type!r} value of length {len(p.value)}{how}")
                 stack.append(c)
     return errs
 
